@@ -109,8 +109,18 @@ func vTableHarness(li int) {
 	dir := fs.Path("t")
 	fs.MkdirAll(dir)
 	nMax, kLen, vLen := 2, 1, 1
+	// thorough tier: one dimension at a time is raised (all of them at once is out of reach: more than 40
+	// minutes per loader and solver time-outs) - 0: three keys; 1: keys of up to two bytes; 2: every
+	// compression pair and a small write buffer
+	shape := -1
 	if vrt.Thorough() {
-		nMax, kLen = 3, 2
+		shape = vrt.Choose("shape", 3)
+		switch shape {
+		case 0:
+			nMax = 3
+		case 1:
+			kLen = 2
+		}
 	}
 	n := vrt.Range("n", 0, nMax)
 	keys := vKeys(n, kLen)
@@ -125,7 +135,7 @@ func vTableHarness(li int) {
 	dataComp := recordio.CompressionTypeSnappy
 	indexComp := recordio.CompressionTypeNone
 	wbuf := 64
-	if vrt.Thorough() {
+	if shape == 2 {
 		dataComp = vComps[vrt.Choose("datacomp", 4)]
 		indexComp = vComps[vrt.Choose("indexcomp", 2)]
 		wbuf = []int{5, 64}[vrt.Choose("wbuf", 2)]
